@@ -320,6 +320,42 @@ func runC07(c *Ctx) {
 						return isR && PathOf(rg.X).LastField() == s.FDependsOn
 					}}).May(sc)
 					c.Check(usesDeps, r2, "cycle-helper-follows-depends_on", FirstPos(p, sc), "the cycle search follows depends_on", "the cycle search does not follow the depends_on edges")
+					// depth-first search: a sub-search that found nothing must not end the examination of the remaining
+					// neighbours: the result of a recursive call is branched on, and its false edge leads to the next
+					// iteration before any return
+					okDfs, nRec := true, 0
+					for _, rin := range DirectSites(sc, CallOfFn("self", sc)) {
+						rc, isCall := rin.(*ssa.Call)
+						if !isCall {
+							continue
+						}
+						nRec++
+						_, fe := boolResultEdges(rc)
+						if len(fe) == 0 {
+							okDfs = false // returned (or stored) as is
+						}
+						for _, g := range fe {
+							lp := InnermostLoopOf(rc)
+							if lp == nil {
+								okDfs = false
+								continue
+							}
+							hdr := lp.Header
+							vis := Reach([]Pt{{g.If.Block().Succs[g.Succ], 0}}, func(x ssa.Instruction) bool { return x.Block() == hdr }, nil)
+							for x := range vis {
+								if _, isRet := x.(*ssa.Return); isRet {
+									okDfs = false
+								}
+							}
+						}
+						for _, ref := range *rc.Referrers() {
+							switch ref.(type) {
+							case *ssa.Return, *ssa.Phi:
+								okDfs = false
+							}
+						}
+					}
+					c.Check(okDfs && nRec > 0, r2, "cycle-search-exhaustive", FirstPos(p, sc), "a fruitless sub-search continues with the next neighbour", "the cycle search returns the result of a recursive call as is (or returns on its false edge) instead of continuing with the remaining dependencies: a cycle reachable only through a later dependency is accepted")
 				}
 			}
 		})
@@ -492,6 +528,23 @@ func runC07(c *Ctx) {
 							case *ssa.Lookup:
 								if PathOf(y.Index).LastField() == s.FName {
 									byName = true
+								}
+							case *ssa.Call:
+								// slices.Contains(requested, proc.Name) and the like
+								for _, a := range y.Call.Args {
+									if PathOf(a).LastField() == s.FName {
+										if o := CalleeObj(&y.Call); o == nil || o.Pkg() == nil || o.Pkg().Path() != "github.com/rs/zerolog" {
+											if sc := y.Call.StaticCallee(); sc != nil && (sc.Origin() != nil || sc.Object() != nil) {
+												nm := sc.Name()
+												if sc.Origin() != nil {
+													nm = sc.Origin().Name()
+												}
+												if nm == "Contains" || nm == "Index" || nm == "ContainsFunc" {
+													byName = true
+												}
+											}
+										}
+									}
 								}
 							}
 						})
